@@ -547,6 +547,12 @@ func (x *CommonLex) ConstructToken(
 					tokenName))
 				break
 			}
+			// Likewise invalid UTF-8 is never part of a token (the literal
+			// matcher accepts everything but the closing quote).
+			if c == xutils.ERR {
+				x.SetError(fmt.Errorf("Invalid UTF-8 input"))
+				break
+			}
 			add(&b, c)
 		} else {
 			break
